@@ -215,19 +215,19 @@ structure Acc where
   cat : BV.Concat.State
   deriving Repr
 
-/-- the `Ok(compressed_out)` arm of the stitch loop -/
+/-- `match cat_result { Success | NeedsMoreInput => Ok(out_file_size), NeedsMoreOutput =>
+Err(InsufficientOutputSpace), err => Err(ConcatenationError(err)) }` -/
+def codeToRes (code outLen : Nat) : Except TErr Nat :=
+  if code = BV.Concat.SUCCESS ∨ code = BV.Concat.NEEDS_MORE_INPUT then .ok outLen
+  else if code = BV.Concat.NEEDS_MORE_OUTPUT then .error .insufficient
+  else .error (.concat code)
+
+/-- the splice of one member: `new_brotli_file()`, then
+`stream(bytes, &mut 0, output, &mut out_file_size)` (free room = `cap - out_file_size`) -/
 def stitchOk (cap : Nat) (a : Acc) (bytes : List Nat) : Res Acc :=
-  let cat := BV.Concat.newBrotliFile a.cat
-  -- `stream(bytes, &mut 0, output, &mut out_file_size)`: free room = cap - out_file_size
-  match BV.Concat.stream cat bytes (cap - a.out.length) with
+  match BV.Concat.stream (BV.Concat.newBrotliFile a.cat) bytes (cap - a.out.length) with
   | .panic s => panic (.concat s)
-  | .ok r =>
-    let out := a.out ++ r.produced
-    let res : Except TErr Nat :=
-      if r.code = BV.Concat.SUCCESS ∨ r.code = BV.Concat.NEEDS_MORE_INPUT then .ok out.length
-      else if r.code = BV.Concat.NEEDS_MORE_OUTPUT then .error .insufficient
-      else .error (.concat r.code)
-    ok ⟨res, out, r.st⟩
+  | .ok r => ok ⟨codeToRes r.code (a.out ++ r.produced).length, a.out ++ r.produced, r.st⟩
 
 /-- what the stitch loop obtains for index `i < t - 1` from `join()` -/
 inductive Joined where
@@ -285,6 +285,10 @@ def inlineSpawns (jobs : Nat → JobRes) : List Nat → Res Unit
   | [] => ok ()
   | i :: is => (onCaller i (jobs i)).bind fun _ => inlineSpawns jobs is
 
+/-- `match finish(..) { Success => Ok(out_file_size), err => Err(ConcatenationFinalizationError(err)) }` -/
+def finishRes (code outLen : Nat) : Except TErr Nat :=
+  if code = BV.Concat.SUCCESS then .ok outLen else .error (.finalization code)
+
 /-- the code after the stitch loop: `finish` if nothing failed, then the hand-back
 (`spawner_and_input.unwrap()` succeeds: every job has been joined — pool:
 `BV.Props.C07.arc_one_after_all_joined`) -/
@@ -294,11 +298,7 @@ def finishUp (cap : Nat) (a : Acc) : Res MultiRet :=
   | .ok _ =>
     match BV.Concat.finish a.cat (cap - a.out.length) with
     | .panic s => panic (.concat s)
-    | .ok f =>
-      let out := a.out ++ f.produced
-      let res : Except TErr Nat :=
-        if f.code = BV.Concat.SUCCESS then .ok out.length else .error (.finalization f.code)
-      ok ⟨res, out, true⟩
+    | .ok f => ok ⟨finishRes f.code (a.out ++ f.produced).length, a.out ++ f.produced, true⟩
 
 /-- the last iteration of the stitch loop (index `t-1`: the local result) -/
 def stitchLast (cap : Nat) (a : Acc) (lr : JobRes) : Res Acc :=
